@@ -121,6 +121,27 @@ def main():
         if q in seen and seen[q] != s and len(failures) < 5:
           failures.append({'id': 'path-collision', 'a': seen[q], 'b': s, 'path': q})
         seen[q] = s
+  # the node path handed to the Ceres backend: TaggedSeries.encode with its default separator '.'
+  # (CeresDatabase.encode); distinct well-formed untagged names must stay distinct, the mapping
+  # deterministic, and -- with the documented CeresTree layout join(root, nodePath.replace('.', os.sep))
+  # -- confined for names without path separators
+  seen_dot = {}
+  for n in range(1, min(a.len, 5) + 1):
+    for t in itertools.product('ab.;=_', repeat=n):
+      s = ''.join(t)
+      for flag in (False, True):
+        e1 = TaggedSeries.encode(s, hash_only=flag)
+        evals += 1
+        if TaggedSeries.encode(s, hash_only=flag) != e1 and len(failures) < 5:
+          failures.append({'id': 'path-not-deterministic', 'metric': s, 'backend': 'ceres'})
+        pth = os.path.join(d, e1.replace('.', os.sep))
+        if s.strip('.') and not confined(d, pth + '/x') and len(failures) < 5:
+          failures.append({'id': 'path-escapes-data-dir', 'metric': s, 'hash_only': flag, 'backend': 'ceres', 'node_path': e1, 'path': pth})
+      if ';' not in s and all(seg for seg in s.split('.')):
+        e = TaggedSeries.encode(s, hash_only=False)
+        if e in seen_dot and seen_dot[e] != s and len(failures) < 5:
+          failures.append({'id': 'path-collision', 'a': seen_dot[e], 'b': s, 'node_path': e, 'backend': 'ceres (default separator)'})
+        seen_dot[e] = s
   # structured, path-like names: components from {'..', '.', 'a', ''} joined by '/', used as the
   # whole name, as the series name of a tagged metric, as a tag name and as a tag value
   n_struct = 0
@@ -151,4 +172,9 @@ def main():
 
 
 if __name__ == '__main__':
-  main()
+  import os as _os
+  sys_path_dir = _os.path.dirname(_os.path.abspath(__file__))
+  import sys as _sys
+  _sys.path.insert(0, sys_path_dir)
+  from _guard import run_guarded
+  run_guarded(main, _os.path.basename(__file__))
